@@ -175,7 +175,7 @@ func (s *sess) serverURLFor(dir string) string {
 	must(c.Start())
 	deepServers = append(deepServers, func() { stdin.Close(); c.Process.Kill(); c.Wait() })
 	u := "http://" + addr
-	for i := 0; i < 300; i++ {
+	for i := 0; i < 3000; i++ { // (up to 30 s: the machine may be saturated by other runs)
 		resp, err := http.Get(u + "/files?pattern=nothing-here")
 		if err == nil {
 			resp.Body.Close()
